@@ -66,12 +66,13 @@ AddrMatches(base, mask, a) ==
 PortMatches(rp, pp)  == rp = AnyN \/ rp = pp
 ProtoMatches(rq, pq) == rq = AnyP \/ rq = pq
 
+\* (a conjunction: the cheap comparisons come first only to let TLC fail fast)
 Matches(r, p) ==
     /\ ProtoMatches(r.proto, p.proto)
-    /\ AddrMatches(r.src, r.smask, p.src)
-    /\ AddrMatches(r.dst, r.dmask, p.dst)
     /\ PortMatches(r.sport, p.sport)
     /\ PortMatches(r.dport, p.dport)
+    /\ AddrMatches(r.src, r.smask, p.src)
+    /\ AddrMatches(r.dst, r.dmask, p.dst)
 
 MatchingPositions(a, p) == {i \in DOMAIN a : a[i] # NoRule /\ Matches(a[i], p)}
 
